@@ -8,3 +8,5 @@ package ext
 //@ iface Queue.Reset
 //@ iface Queue.Close
 //@ iface Queue.Write
+//@ iface Queue.Read
+//@ iface Queue.ReadWait
